@@ -1,6 +1,6 @@
 (* C09 -- The send machinery never wedges.  Statements only. *)
 From Coq Require Import ZArith List Bool Arith.
-From RV Require Import GenConsts M_Qos P_Qos.
+From RV Require Import GenConsts M_Qos P_Qos P_QosOwner P_QosAlive.
 Import ListNotations.
 Open Scope Z_scope.
 
@@ -34,3 +34,21 @@ Theorem C09_cancelled_caller_answered : forall w c,
   aget CNone c (callers w) = CCancelled ->
   exists w', caller_wake w c = Ok w' /\ In (Done (now w) c ErrCancelled) (trace w') /\ cx w' = cx w.
 Proof. exact cancelled_caller_answered. Qed.
+
+(* "once traffic stops the sender is idle (or inactive if disconnected) with nothing in flight": in EVERY run -- any events (calls, packets,
+   connection events, stalls, outside cancels), tie policy, transport behaviour, number of steps -- in which no internal assertion has tripped
+   (none reached the event loop, none was handed to a caller), once the run has come to rest (nothing ready to run, no timer armed) the state machine
+   is not waiting for an echo or a reply.  The invariant behind it (P_QosAlive.always_alive): while it waits, a deferred effect_state or the live
+   expiry task of that wait -- about to start, sleeping with its timer armed, or woken -- is pending.  The runs with a tripped assertion are the
+   recorded findings (C09_no_crash_refuted). *)
+Theorem C09_at_rest_not_waiting : forall cmds plan lifo fuel evs,
+  let w := fst (run cmds plan lifo fuel (world0 evs)) in
+  clean_tr (trace w) = true -> ready w = [] -> timers w = [] -> state (cx w) = Idle \/ state (cx w) = Inactive.
+Proof. exact at_rest_not_waiting. Qed.
+(* the premises are met by runs that did wait: a command echoed after 10 ms; a command nobody answers, given up after its four attempts *)
+Theorem C09_at_rest_nonvacuous :
+  (let w := fst (run (cmd_a 0 20000000) echoed false 5000 (world0 [(0, ConnMade); (15625, Call 0%nat)])) in
+   clean_tr (trace w) = true /\ ready w = [] /\ timers w = [] /\ state (cx w) = Idle /\ In (Write 15625 0%nat) (trace w)) /\
+  (let w := fst (run (cmd_a 3 20000000) silent false 5000 (world0 [(0, ConnMade); (15625, Call 0%nat)])) in
+   clean_tr (trace w) = true /\ ready w = [] /\ timers w = [] /\ state (cx w) = Idle /\ length (trace w) = 5%nat).
+Proof. split; [exact at_rest_nonvacuous|exact at_rest_nonvacuous_unanswered]. Qed.
